@@ -162,7 +162,11 @@ func drive(args []string) int {
 		fmt.Fprintln(os.Stderr, err)
 		return 2
 	}
-	defer os.RemoveAll(scratch)
+	if os.Getenv("VERIF_KEEP") != "" {
+		fmt.Println("scratch kept at", scratch)
+	} else {
+		defer os.RemoveAll(scratch)
+	}
 
 	// plan
 	var runs []*shardRun
